@@ -18,7 +18,10 @@ import (
 	"strings"
 	"time"
 
+	wasmvmtypes "github.com/CosmWasm/wasmvm/types"
 	sdk "github.com/cosmos/cosmos-sdk/types"
+	"github.com/jackalLabs/canine-chain/v4/wasmbinding"
+	"github.com/jackalLabs/canine-chain/v4/wasmbinding/bindings"
 	storagetypes "github.com/jackalLabs/canine-chain/v4/x/storage/types"
 	"github.com/wealdtech/go-merkletree/v2"
 	"github.com/wealdtech/go-merkletree/v2/sha3"
@@ -124,6 +127,34 @@ type c07Hist struct {
 	cw      int64
 	dead    []c07File // files that existed once (stale references for DeleteFile)
 	aborted bool
+	// the next PostFile is sent by a contract: the custom wasm message {"post_file": …} through the chain's own
+	// message plugin (no transaction, so baseapp's ValidateBasic is not on the way)
+	contract bool
+	nPosts   int
+}
+
+// contractPost delivers a MsgPostFile the way a CosmWasm contract does, on a cache context written only on success
+func (h *c07Hist) contractPost(msg *storagetypes.MsgPostFile) MsgResult {
+	e := h.e
+	addr, err := sdk.AccAddressFromBech32(msg.Creator)
+	if err != nil {
+		return MsgResult{Out: OutFail, Err: "no such contract: " + err.Error()}
+	}
+	js, err := json.Marshal(bindings.JackalMsg{PostFile: msg})
+	if err != nil {
+		return MsgResult{Out: OutFail, Err: err.Error()}
+	}
+	m := wasmbinding.CustomMessageDecorator(&e.App.FileTreeKeeper, &e.App.StorageKeeper)(nil)
+	cctx, write := e.Ctx.CacheContext()
+	var derr error
+	if pn := Guard(func() { _, _, derr = m.DispatchMsg(cctx, addr, "", wasmvmtypes.CosmosMsg{Custom: js}) }); pn != "" {
+		return MsgResult{Out: OutPanic, Err: pn}
+	}
+	if derr != nil {
+		return MsgResult{Out: OutFail, Err: derr.Error()}
+	}
+	write()
+	return MsgResult{Out: OutOk}
 }
 
 const c07NAcct = 4 // accounts 1..3 funded, 4 has no money
@@ -380,10 +411,17 @@ func (h *c07Hist) doPost(creator string, merkle []byte, size, maxp, expires int6
 			}
 		}
 	}
-	res := e.Run(msg)
+	var res MsgResult
+	via := "transaction"
+	if h.contract {
+		res, via = h.contractPost(msg), "contract"
+	} else {
+		res = e.Run(msg)
+	}
+	h.r.Hist("post-route", via+":"+res.Out)
 	post := h.observe()
 	mh := hex.EncodeToString(merkle)
-	desc := map[string]interface{}{"op": "PostFile", "height": e.Height, "time_ns": h.nowNs().String(), "creator": creator, "merkle": mh, "size": size, "maxproofs": maxp, "expires": expires, "note": note, "out": res.Out, "err": res.Err}
+	desc := map[string]interface{}{"route": via, "op": "PostFile", "height": e.Height, "time_ns": h.nowNs().String(), "creator": creator, "merkle": mh, "size": size, "maxproofs": maxp, "expires": expires, "note": note, "out": res.Out, "err": res.Err}
 	h.trace = append(h.trace, desc)
 	term := fmt.Sprintf("CPost %s %s %s %s {| pm_creator := %s; pm_merkle := %s; pm_size := %s; pm_maxp := %s; pm_expires := %s; pm_note_ok := %s; pm_pay_ok := %s |} %s %s",
 		h.cState(pre), cZ(e.Height), cZbig(h.nowNs()), cZ(h.window), cN(h.ownerID(creator)), cN(h.merkleID(mh)), cZ(size), cZ(maxp), cZ(expires), cBool(json.Valid([]byte(note))), cBool(payOK), c07Out(res.Out), h.cState(post))
@@ -664,6 +702,35 @@ func (h *c07Hist) prefix() {
 	h.doPost(a3.String(), m0, 1, 1, 0, "{}")
 	h.doDelete(a3.String(), hex.EncodeToString(m1), h.e.Height-3)
 	h.doPost(a3.String(), m0, 10, 1, 0, "{}")
+	// a contract that owns a plan posts through the custom wasm message: the same rules
+	h.contract = true
+	h.doPost(a3.String(), m0, -400_000_000, 3, 0, "{}")
+	h.doPost(a3.String(), m0, 0, 1, 0, "{}")
+	h.doPost(a3.String(), m0, 10, 0, 0, "{}")
+	h.doPost(a3.String(), m0, 10, -2, 0, "{}")
+	h.doPost(a3.String(), m0, math.MaxInt64/2, 3, 0, "{}")
+	h.doPost(a3.String(), m1, 11, 2, 0, "{}")
+	h.doPost(a3.String(), m1, 11, 2, 0, "not json")
+	h.doPost(strings.ToUpper(a3.String()), m1, 11, 2, 0, "{}")
+	h.doPost(a3.String(), h.pool[2].Root, 1_400_000_000, 1, 0, "{}")
+	h.contract = false
+	a4 := Acct(4)
+	// a plan ends at an instant, not at a whole second: bought a quarter past the second, it is over at any block
+	// time after that instant — half a second later included — and still live at the instant itself
+	h.advance(2, 11*time.Second+250*time.Millisecond)
+	h.doBuy(a2, a4.String(), 30, 4_000_000_000, "ujkl") // paid for by someone else
+	h.doPost(a4.String(), m0, 410, 1, 0, "{}")
+	if pl := h.observe().plan(a4.String()); pl != nil {
+		end := time.Unix(new(big.Int).Div(pl.endNs, big.NewInt(1_000_000_000)).Int64(), new(big.Int).Mod(pl.endNs, big.NewInt(1_000_000_000)).Int64()).UTC()
+		h.advance(3, end.Sub(h.e.Time))
+		h.doPost(a4.String(), m1, 100, 1, 0, "{}") // at the instant the plan ends
+		h.advance(1, time.Nanosecond)
+		h.doPost(a4.String(), h.pool[2].Root, 100, 1, 0, "{}")
+		h.advance(1, 500*time.Millisecond-time.Nanosecond)
+		h.doPost(a4.String(), h.pool[3].Root, 100, 1, 0, "{}") // same second, half a second after the end
+		h.advance(1, 500*time.Millisecond)
+		h.doPost(a4.String(), h.pool[3].Root, 100, 1, 0, "{}")
+	}
 }
 
 func (h *c07Hist) liveFiles() []c07File { return h.observe().Files }
@@ -743,7 +810,10 @@ func (h *c07Hist) randomOp() {
 		if p.Chance(1, 30) {
 			note = "not json"
 		}
+		h.nPosts++
+		h.contract = h.nPosts%6 == 4 // every sixth post comes from a contract
 		h.doPost(creator, m, size, maxp, expires, note)
+		h.contract = false
 		if p.Chance(1, 5) { // the same key again in the same block
 			sz, mp := size, maxp
 			if p.Bool() {
